@@ -127,7 +127,12 @@ def run_check(pid, tier, seed):
             parts = check['parts'](tier) if callable(check['parts']) else check['parts']
             budget = check['budget'][tier]
             maxw = check.get('max_workers', NCPU)
-            for ci, ch in enumerate(chunk(list(parts), maxw * 8)):
+            chunks = chunk(list(parts), maxw * 8)
+            # the whole check stays within total_s of wall time even if no partition exhausts (budgets are caps)
+            total_s = check.get('total_s', {'quick': 360, 'thorough': 1200})[tier]
+            rounds = -(-len(chunks) // NCPU)
+            budget = min(budget, max(20, total_s // max(1, rounds)))
+            for ci, ch in enumerate(chunks):
                 jobs.append((check, ch, budget))
         # schedule: ceil(jobs/NCPU) rounds; budgets are per job
         q = queue.Queue()
